@@ -6,6 +6,7 @@ import (
 	"encoding/binary"
 	"fmt"
 	"math/rand"
+	"runtime"
 	"sync"
 	"sync/atomic"
 	"time"
@@ -72,6 +73,7 @@ type txState struct {
 	phase string
 	base  *model.Map
 	txm   *model.Map
+	keys  [][]byte // committing: keys written by the transaction
 }
 
 func runCase(c *wk.Ctx, i int) {
@@ -94,7 +96,10 @@ func runCase(c *wk.Ctx, i int) {
 	kg := model.NewKeyGen(r, 40+r.Intn(300))
 	M := model.NewMap(cmp)
 	var pub atomic.Value
-	setState := func(phase string, base, txm *model.Map) { pub.Store(&txState{phase: phase, base: base, txm: txm}) }
+	var pubKeys [][]byte
+	setState := func(phase string, base, txm *model.Map) {
+		pub.Store(&txState{phase: phase, base: base, txm: txm, keys: pubKeys})
+	}
 	publish := func() { setState("idle", nil, nil) }
 	publish()
 	// outside writers rewrite constant pairs that are part of the model from the start
@@ -144,8 +149,85 @@ func runCase(c *wk.Ctx, i int) {
 	}
 	var outcomes []string
 	// readOnce returns false when the reader should stop.
+	// snapOnce: a snapshot taken while a transaction is being committed shows, for the keys the transaction
+	// wrote, either the state before it or the state after it - and goes on showing that same state when it
+	// is read again after the commit has finished ("Commit makes all of them visible at once").
+	snapOnce := func(rr *rand.Rand, p0 *txState) bool {
+		sn, err := db.GetSnapshot()
+		if err != nil {
+			return err != leveldb.ErrClosed
+		}
+		defer sn.Release()
+		if pub.Load().(*txState) != p0 {
+			return true // the phase changed while the snapshot was being taken: not judged
+		}
+		nk := len(p0.keys)
+		if nk > 24 {
+			nk = 24
+		}
+		off := 0
+		if len(p0.keys) > nk {
+			off = rr.Intn(len(p0.keys) - nk)
+		}
+		keys := p0.keys[off : off+nk]
+		classify := func() (olds, news int, vals [][]byte, ok bool) {
+			for _, k := range keys {
+				v, err := sn.Get(k, nil)
+				if err != nil && err != leveldb.ErrNotFound {
+					return 0, 0, nil, false
+				}
+				if err != nil {
+					v = nil
+				} else if v == nil {
+					v = []byte{}
+				}
+				vals = append(vals, v)
+				bw, bl := p0.base.Get(k)
+				tw, tl := p0.txm.Get(k)
+				isOld := bl && err == nil && bytes.Equal(v, bw) || !bl && err != nil
+				isNew := tl && err == nil && bytes.Equal(v, tw) || !tl && err != nil
+				switch {
+				case isOld && isNew:
+				case isOld:
+					olds++
+				case isNew:
+					news++
+				default:
+					olds, news = olds+1, news+1 // neither: reported as a mixed view below
+				}
+			}
+			return olds, news, vals, true
+		}
+		o1, n1, v1, ok := classify()
+		if !ok {
+			return true
+		}
+		// read again once the commit has ended (bounded wait in steps, not in time)
+		for spin := 0; spin < 20000 && pub.Load().(*txState) == p0 && atomic.LoadInt32(&stop) == 0; spin++ {
+			runtime.Gosched()
+		}
+		o2, n2, v2, ok := classify()
+		if !ok {
+			return true
+		}
+		c.Count("snapshots_taken_while_a_transaction_was_committing", 1)
+		if o1 > 0 && n1 > 0 || o2 > 0 && n2 > 0 {
+			fail("atomicity:snapshot-sees-part-of-a-committing-transaction", fmt.Sprintf("a snapshot taken during Commit shows %d keys of the transaction in their old state and %d in their new state (second pass: %d old, %d new)", o1, n1, o2, n2), nil)
+			return false
+		}
+		for j := range v1 {
+			if (v1[j] == nil) != (v2[j] == nil) || !bytes.Equal(v1[j], v2[j]) {
+				fail("atomicity:snapshot-taken-during-commit-changed", fmt.Sprintf("a snapshot taken during Commit returned %.40x for key %x at first and %.40x when read again after the commit had finished (first pass %d old / %d new, second pass %d old / %d new)", v1[j], keys[j], v2[j], o1, n1, o2, n2), nil)
+				return false
+			}
+		}
+		return true
+	}
 	readOnce := func(rr *rand.Rand) bool {
 		p0 := pub.Load().(*txState)
+		if p0.phase == "committing" && len(p0.keys) > 0 && rr.Intn(4) == 0 {
+			return snapOnce(rr, p0)
+		}
 		k := kg.Pick(rr)
 		v, err := db.Get(k, nil)
 		p1 := pub.Load().(*txState)
@@ -439,7 +521,9 @@ func runCase(c *wk.Ctx, i int) {
 				outcome = "close"
 			}
 			atomic.StoreInt64(&txDoneInv, stamp())
+			pubKeys = txKeys
 			setState("committing", base, txM)
+			pubKeys = nil
 			switch outcome {
 			case "commit":
 				err := tr.Commit()
